@@ -176,7 +176,7 @@ _add(
          "one neuron step judged by the model-free invariants I1-I6 and (float64) by the one-step model from the "
          "observed pre-state (spike set, voltage, refractory time, and the batch-averaged adaptation that sets the next step's threshold / current). distinct = (class, dtype, dt, refractory ratio, drive, lock, adapt, spiking/quiet, batch).",
     required=["steps_checked", "spikes_seen", "reset_checks", "silence_window_steps", "adaptation_freeze_checks", "adaptation_law_checks",
-              "model_steps_checked", "exact_ties_checked", "mid_trajectory_clears"],
+              "model_steps_checked", "exact_ties_checked", "mid_trajectory_clears", "adaptation_function_checks"],
     floor={"quick": 400, "thorough": 1500},
     text="Held on every trajectory explored (apart from the listed finding): every forward of the real neuron classes "
          "is checked for non-negative refractory time, spike attribute == returned spikes, no spike while refractory, "
@@ -197,7 +197,7 @@ _add(
          "contracted with the weight with the forward output; lateral diagonal invariant after each of 4-14 random "
          "mutating operations (weight/delay assignment, updater application, clamp / normalise hooks, forward). "
          "distinct = geometry / shape-class abstractions.",
-    required=["forward_checks", "conv_geometries", "helper_checks", "lateral_diagonal_checks", "delayed_linear_cases", "initialiser_built_connections"],
+    required=["forward_checks", "conv_geometries", "helper_checks", "lateral_diagonal_checks", "delayed_linear_cases", "initialiser_built_connections", "delayed_conv_cases", "bias_layout_checks"],
     floor={"quick": 150, "thorough": 3000},
     exhaustive={"thorough": ["conv2d: all square inputs 3..9, C,F in 1..3, kernels 1..3 x 1..3, stride 1..3, padding 0..2, dilation 1..2 with non-empty output"]},
     text="Held on every input and geometry explored: the real connections (float64) are driven with arbitrary real "
@@ -255,7 +255,7 @@ _add(
          "accumulator must receive the sum of the two cells' rules), all seven STDP-family trainers. One evaluation = one layer step + trainer call + update judged (parts, net change, "
          "applied change) against sums over recorded spike times; non-trivial when at least one spike pair contributes; "
          "distinct = (trainer, cell type, delay mode, sign mode, trace mode, reduction, batch, reward kind, pairs/no pairs).",
-    required=["trainer_steps_checked", "steps_with_pairs", "exhaustive_histories", "per_cell_override_cases", "multicell_steps_checked", "multicell_shared_connection_steps", "fractional_delay_steps_checked", "multicell_frozen_layer_cases", "episode_clears"],
+    required=["trainer_steps_checked", "steps_with_pairs", "exhaustive_histories", "per_cell_override_cases", "multicell_steps_checked", "multicell_shared_connection_steps", "fractional_delay_steps_checked", "multicell_frozen_layer_cases", "episode_clears", "multicell_calls_limited_to_named_cells"],
     floor={"quick": 60, "thorough": 150},
     exhaustive={"quick": ["all 4^4 joint pre/post histories of one synapse x 4 sign modes x 2 trace modes"],
                 "thorough": ["all 4^5 joint pre/post histories of one synapse x 4 sign modes x 2 trace modes"]},
@@ -278,7 +278,7 @@ _add(
          "rule; (d) exactly constructed t_delta == 0 ties. One evaluation = one step judged; distinct = (part, trainer, "
          "cell type, delay values, sign mode, reduction, batch, reward kind, active/silent).",
     required=["formula_steps_checked", "steps_with_change", "steps_before_both_sides_spiked", "trainer_clears", "cross_steps_checked",
-              "zero_delay_steps_checked", "ties_checked", "tensor_valued_kernel_kwargs_cases", "multicell_steps_checked", "kernel_delayed_substep_delay_steps"],
+              "zero_delay_steps_checked", "ties_checked", "tensor_valued_kernel_kwargs_cases", "multicell_steps_checked", "kernel_delayed_substep_delay_steps", "multicell_calls_limited_to_named_cells"],
     floor={"quick": 60, "thorough": 150},
     text="Held on every history explored: the change applied by each real delay-adjusted / kernel trainer after every "
          "step equals the documented function of t_delta built from the true most-recent spike times and the delay read "
